@@ -66,7 +66,7 @@ def gen_function_cases(out, tier, rng):
         fx = float(x)
         w, p = M.split_float(fx)
         add("split_float", f"CSplit {cq(x)} {G.cqq((w, p))}", str(x))
-        for tol in (STOLS + TTOLS if tier != "quick" else [1e-3, 2.0 ** -10, 0.05, 2.0 ** -3]):
+        for tol in (STOLS + TTOLS if tier != "quick" else [1e-3, 2.0 ** -10, 0.05]):
             add("maybe_int", f"CMaybeInt {cq(x)} {cq(Fr(tol))} {cq(Fr(M.maybe_int(fx, tol)))}", (str(x), tol))
             add("is_almost_int", f"CAlmost {cq(x)} {cq(Fr(tol))} {cbool(M.is_almost_int(fx, tol))}", (str(x), tol))
             if G.is_f64(1 - Fr(tol)) and (abs(x) >= 1 - Fr(tol) or abs(x) < Fr(tol) or
@@ -87,7 +87,7 @@ def gen_function_cases(out, tier, rng):
             add("pick_read_scale:" + kind, f"CPick {cq(x)} {cq(Fr(tol))} {e}", (str(x), tol))
 
     # --- compute_axis_overlap
-    sizes = [0, 1, 2, 3, 5, 8, 13]
+    sizes = [0, 1, 2, 3, 5, 8, 13] if tier != "quick" else [0, 1, 2, 3, 5, 8]
     n_axis = 0
     combos = []
     for Ns, Nd in itertools.product(sizes, sizes):
@@ -389,7 +389,8 @@ NL_PAIRS = [
     ("EPSG:32633", (32.0, 0, 499968.0, 0, -32.0, 6000000.0), "EPSG:4326", (1 / 2048, 0, 14.9, 0, -1 / 2048, 54.2)),
     ("EPSG:3577", (64.0, 0, 1500000.0, 0, -64.0, -3900000.0), "EPSG:32755", (50.0, 0, 600000.0, 0, -50.0, 6100000.0)),
     ("EPSG:6933", (1024.0, 0, 0.0, 0, -1024.0, 1000000.0), "EPSG:4326", (1 / 64, 0, -1.0, 0, -1 / 64, 9.0)),
-    ("EPSG:4326", (1 / 8, 0, -180.0, 0, -1 / 8, 90.0), "EPSG:3857", (65536.0, 0, -4000000.0, 0, -65536.0, 4000000.0)),
+    # (all pairs stay inside the valid area of both CRSs for every generated shift: the property quantifies over those)
+    ("EPSG:4326", (1 / 8, 0, -170.0, 0, -1 / 8, 78.0), "EPSG:3857", (65536.0, 0, -4000000.0, 0, -65536.0, 4000000.0)),
     ("EPSG:3857", (512.0, 0, 1000000.0, 0, -512.0, 7000000.0), "EPSG:32632", (400.0, 0, 300000.0, 0, -400.0, 5900000.0)),
 ]
 
@@ -582,8 +583,12 @@ def p_reproject_crs(i, seed_tag):
             continue
         if eps <= p.x < nx - eps and eps <= p.y < ny - eps:
             kx, ky, dx, dy = math.floor(p.x), math.floor(p.y), int(c.x), int(c.y)
-            sl = min(p.x - sx0, sx1 - p.x, p.y - sy0, sy1 - p.y)
-            slack = sl if slack is None else min(slack, sl)
+            # distance to those edges of roi_src that are not edges of the source image itself
+            sides = [v for v, at_edge in ((p.x - sx0, sx0 == 0), (sx1 - p.x, sx1 == nx), (p.y - sy0, sy0 == 0), (sy1 - p.y, sy1 == ny))
+                     if not at_edge]
+            sl = min(sides) if sides else None
+            if sl is not None:
+                slack = sl if slack is None else min(slack, sl)
             if not (dx0 <= dx < dx1 and dy0 <= dy < dy1 and sx0 <= kx < sx1 and sy0 <= ky < sy1):
                 return False, why + f": destination pixel (x={dx},y={dy}) maps to source ({p.x:.3f},{p.y:.3f}) but is not covered", sl
     return True, why, slack
@@ -661,7 +666,8 @@ def search(out, tier):
             found["crs"] = True
             out.violation("c03:reproject_crs", detail, {"predicate": "reproject_crs", "args": [i, "c03-crs"], "observed": detail})
     out.notes.append(f"H_boundary_encloses tested on {m} cross-CRS pairs by checking every destination pixel: "
-                     f"smallest observed distance of a needed source location from the edge of roi_src = {worst} px")
+                     f"smallest observed distance of a needed source location from an interior edge of roi_src = {worst} px "
+                     f"(edges that coincide with the image border are not counted)")
 
 
 def p_big(src_shape, dst_shape, A, kw):
@@ -708,7 +714,7 @@ def run(out, tier, scratch):
     cases = gen_function_cases(out, tier, rng)
     cases += gen_reproj_cases(out, tier, rng)
     cases += gen_nl_cases(out, tier, rng)
-    fails, log = core.coq_eval_failures(REQ, "case", "check", cases, scratch, shard=250)
+    fails, log = core.coq_eval_failures(REQ, "case", "check", cases, scratch, shard=400)
     detail = ""
     if fails:
         detail = "model and implementation differ on: " + " | ".join(cases[i] for i in fails[:4])
